@@ -223,7 +223,7 @@ func cmdManifest() int {
 			Evidence: "/verif/evidence/" + id + ".json", Replay: "./bin/jsv explain {path}", Engine: "jsv",
 			Level: lvl{"other", p.Level, p.DesignRef}, Note: p.Note + " Rules: " + strings.Join(p.Rules, ", ") + ".", Technique: p.Technique})
 	}
-	var nas []na
+	nas := []na{}
 	var ids []string
 	for id := range rules.NotApplicable {
 		ids = append(ids, id)
